@@ -161,7 +161,9 @@ impl<'r> G<'r> {
             T::Any => { let k = [T::Num, T::Str, T::Bool, T::Arr, T::Map][self.r.b(5) as usize]; if self.r.p(25) { E::Tern(bx(self.g(T::Any, d - 1)), bx(self.g(T::Any, d - 1)), bx(self.g(T::Any, d - 1))) } else { self.g(k, d - 1) } } } }
 }
 // a `.`/`?.` base must be an identifier path; an Item/Slice base may be any primary but `?[` only after identifiers. Reject trees our printer can't spell.
-fn spellable(e: &E) -> bool { let mut ok = true; walk(e, &mut |x| match x { E::Comp(_, t, _) => { let mut has_map = false; walk(t, &mut |y| if matches!(y, E::Map(_)) || matches!(y, E::Var(n) if n == "m") { has_map = true; }); if has_map { ok = false; } } E::Attr(b, ..) => if !matches!(**b, E::Var(_) | E::Attr(..) | E::Item(..)) { ok = false }, E::Item(b, _, o) => { if *o && !matches!(**b, E::Var(_) | E::Attr(..) | E::Item(..)) { ok = false } if !matches!(**b, E::Var(_) | E::Attr(..) | E::Item(..) | E::Lit(V::Arr(_)) | E::Lit(V::Str(_)) | E::Arr(_)) { ok = false } }
+/// a postfix chain that starts at a variable (the only bases `.`, `?.` and `?[` are parsed after)
+fn rooted(e: &E) -> bool { match e { E::Var(_) => true, E::Attr(b, ..) | E::Item(b, ..) => rooted(b), _ => false } }
+fn spellable(e: &E) -> bool { let mut ok = true; walk(e, &mut |x| match x { E::Comp(_, t, _) => { let mut has_map = false; walk(t, &mut |y| if matches!(y, E::Map(_)) || matches!(y, E::Var(n) if n == "m") { has_map = true; }); if has_map { ok = false; } } E::Attr(b, ..) => if !rooted(b) { ok = false }, E::Item(b, _, o) => { if *o && !rooted(b) { ok = false } if !matches!(**b, E::Var(_) | E::Attr(..) | E::Item(..) | E::Lit(V::Arr(_)) | E::Lit(V::Str(_)) | E::Arr(_)) { ok = false } }
     E::Slice(b, ..) => if !matches!(**b, E::Var(_) | E::Attr(..) | E::Item(..) | E::Lit(V::Arr(_)) | E::Lit(V::Str(_))) { ok = false }, _ => {} }); ok }
 
 
